@@ -425,7 +425,7 @@ def run_shard(shard, acc):
             descs.append(data.draw(near(d2)) if data.draw(st.booleans()) else data.draw(item()))
         hist = data.draw(st.sampled_from([0, 1, cache, 3 * cache])) if cache < 100 else data.draw(st.sampled_from([0, 3, 1100]))
         case = dict(kind='laws', cache=cache, hist=hist, items=[A.to_json(d) for d in descs])
-        res = check_laws(descs, hist, cache)
+        res = guarded_laws(descs, hist, cache)
         k1, k2 = key_of_desc(d1), key_of_desc(d2)
         nontriv = (k1[0] == k2[0] and k1 != k2) or hist >= cache
         acc.case((cache, hist, case['items']), nontrivial=nontriv,
@@ -435,6 +435,19 @@ def run_shard(shard, acc):
         for fp, d in res:
             acc.finding(fp, case, d)
     body()
+
+
+def guarded_laws(descs, hist, cache):
+    try:
+        return check_laws(descs, hist, cache)
+    except Exception as e:
+        # an exception out of the library on a path the laws do not guard individually (building filler items,
+        # rebuilding from idents ...) is a violation of value semantics, not a harness error
+        from ..lib import library_frame
+        where = library_frame(e)
+        if where is None:
+            raise
+        return [(f'C14|raises|{type(e).__name__}|{where}', f'[cache={cache}, history={hist}] {" , ".join(show(d) for d in descs)}: {e!r}')]
 
 
 def replay(case):
@@ -459,4 +472,4 @@ def replay(case):
         return [tuple(x) for x in json.loads(r.stdout.strip().splitlines()[-1])]
     os.environ['ITEM_CACHE_SIZE'] = want
     descs = [A.from_json(d) for d in case['items']]
-    return check_laws(descs, case['hist'], case['cache'])
+    return guarded_laws(descs, case['hist'], case['cache'])
